@@ -711,7 +711,7 @@ func evalCmpAt(cond ssa.Value, v ssa.Value, k int64) (bool, bool) {
 // nilTextOnlyWithError: the nil text arrives from predecessor `from` of a join
 // where an error phi takes a non-nil value on the same edge, and the message
 // constructor runs only when that error is nil.
-func nilTextOnlyWithError(fs *core.FactSet, mk *ssa.Call, from *ssa.BasicBlock) bool {
+func nilTextOnlyWithError(fs *core.FactSet, mk ssa.Instruction, from *ssa.BasicBlock) bool {
 	for _, sc := range from.Succs {
 		for _, in := range sc.Instrs {
 			ephi, ok := in.(*ssa.Phi)
